@@ -7,7 +7,6 @@ import (
 	"go/token"
 	"go/types"
 	"golang.org/x/tools/go/ssa"
-	"os"
 	"sort"
 	"strings"
 
@@ -18,7 +17,7 @@ import (
 func init() { Registry["C14"] = checkC14 }
 
 func checkC14(c *core.Ctx, l *core.Ledger) {
-	l.Explanation = "THIN claim. Static clauses of C14 only: (EQ-NIL) generated struct Equals returns on a nil receiver or argument before touching any field, and the generated pointer comparison handles the four nil combinations; (EQ-FIELDS) on every shape class every field contributes exactly one comparison whose failure returns false (by value iff required, through the nil-aware pointer form otherwise) and nothing else decides the result; (EQ-KIND) lists are compared positionally after a length test, sets and maps by membership after a length test — in the generated helpers and in wire.{Lists,Sets,Maps}AreEqual alike (the kind of comparison, not its text); (EQ-PRIM) in wire.ValuesAreEqual the case of every primitive wire type compares the two operands as values of that type's Go type (bool, int8, float64, int16, int32, int64 — the type of the matching constructor/getter), one derived from each argument: comparing another representation (raw bits) changes equality of doubles; (EQ-EXH) wire.ValuesAreEqual handles all 11 wire types and rejects differing types first; the hashable fast paths cover exactly the types toHashable can convert (so it cannot panic). NOT decided — and this is the bulk of the property: reflexivity/symmetry/transitivity as such, agreement of generated Equals with wire equality and with an independent structural comparison on concrete values (value-level statements no shape argument settles)."
+	l.Explanation = "THIN claim. Static clauses of C14 only: (EQ-NIL) generated struct Equals returns on a nil receiver or argument before touching any field, and the generated pointer comparison handles the four nil combinations; (EQ-FIELDS) on every shape class every field contributes exactly one comparison whose failure returns false (by value iff required, through the nil-aware pointer form otherwise) and nothing else decides the result; (EQ-KIND) lists are compared positionally after a length test, sets and maps by membership after a length test — in the generated helpers and in wire.{Lists,Sets,Maps}AreEqual alike (the kind of comparison, not its text); (EQ-PRIM) in wire.ValuesAreEqual the case of every primitive wire type compares the two operands as values of that type's Go type (bool, int8, float64, int16, int32, int64 — the type of the matching constructor/getter), one derived from each argument: comparing another representation (raw bits) changes equality of doubles; (EQ-EXH) wire.ValuesAreEqual handles all 11 wire types and rejects differing types first; the hashable fast paths cover exactly the types toHashable can convert (so it cannot panic). (EQ-KIND accessors) Size, ValueType and KeyType of the two sides have each been found equal on every path to an answer other than false. NOT decided — and this is the bulk of the property: reflexivity/symmetry/transitivity as such, agreement of generated Equals with wire equality and with an independent structural comparison on concrete values (value-level statements no shape argument settles)."
 	l.RuleText = "one obligation per (template, shape class) / function"
 	l.Exhaustive = true
 	mod := tmpl.Extract(c)
@@ -175,31 +174,48 @@ func checkC14(c *core.Ctx, l *core.Ledger) {
 		}
 		// the size test guards every answer other than false
 		if sf := c.SSAFunc(fobj); sf != nil && len(sf.Params) == 2 {
-			sized := func(v ssa.Value, p string) bool {
-				if call, ok := v.(*ssa.Call); ok && call.Common().IsInvoke() && call.Common().Method.Name() == "Size" {
-					return core.Sym(call.Common().Value) == p
+			// every descriptive accessor of the two sides (Size, and the element type tags
+			// ValueType / KeyType when the parameter is a lazy collection) must have been found
+			// equal on every path to an answer other than false
+			accessors := []string{"Size"}
+			if it, isI := sf.Params[0].Type().Underlying().(*types.Interface); isI {
+				accessors = nil
+				for i := 0; i < it.NumMethods(); i++ {
+					m := it.Method(i)
+					sig := m.Type().(*types.Signature)
+					if sig.Params().Len() != 0 || sig.Results().Len() != 1 || core.IsErrorType(sig.Results().At(0).Type()) {
+						continue
+					}
+					if _, isB := sig.Results().At(0).Type().Underlying().(*types.Basic); isB {
+						accessors = append(accessors, m.Name())
+					}
 				}
-				s := core.Sym(v)
-				return strings.HasPrefix(s, "len("+p+".")
+				sort.Strings(accessors)
 			}
-			edges := core.GuardEdges(sf, func(cm core.Cmp) bool {
-				if os.Getenv("VDEBUG") != "" {
-					fmt.Fprintln(os.Stderr, "EQSIZE", wc.fn, cm.Op, core.Sym(cm.X), core.Sym(cm.Y))
+			for _, acc := range accessors {
+				acc := acc
+				reads := func(v ssa.Value, p string) bool {
+					if call, ok := v.(*ssa.Call); ok && call.Common().IsInvoke() && call.Common().Method.Name() == acc {
+						return core.Sym(call.Common().Value) == p
+					}
+					return acc == "Size" && strings.HasPrefix(core.Sym(v), "len("+p+".")
 				}
-				return cm.Op == token.EQL && ((sized(cm.X, "$0") && sized(cm.Y, "$1")) || (sized(cm.X, "$1") && sized(cm.Y, "$0")))
-			})
-			core.Instrs(sf, func(in ssa.Instruction) {
-				r, ok := in.(*ssa.Return)
-				if !ok || len(r.Results) != 1 {
-					return
-				}
-				if k, isK := r.Results[0].(*ssa.Const); isK && k.Value != nil && k.Value.String() == "false" {
-					return
-				}
-				if len(edges) == 0 || !core.AllPathsThroughEdges(sf, r.Block(), edges) {
-					why = append(why, "the answer returned at "+c.Rel(r.Pos())+" can be other than false without the two sizes having been found equal")
-				}
-			})
+				edges := core.GuardEdges(sf, func(cm core.Cmp) bool {
+					return cm.Op == token.EQL && ((reads(cm.X, "$0") && reads(cm.Y, "$1")) || (reads(cm.X, "$1") && reads(cm.Y, "$0")))
+				})
+				core.Instrs(sf, func(in ssa.Instruction) {
+					r, ok := in.(*ssa.Return)
+					if !ok || len(r.Results) != 1 {
+						return
+					}
+					if k, isK := r.Results[0].(*ssa.Const); isK && k.Value != nil && k.Value.String() == "false" {
+						return
+					}
+					if len(edges) == 0 || !core.AllPathsThroughEdges(sf, r.Block(), edges) {
+						why = append(why, "the answer returned at "+c.Rel(r.Pos())+" can be other than false without "+acc+" of the two sides having been found equal")
+					}
+				})
+			}
 		}
 		l.Check(len(why) == 0, "EQ-KIND", "wire."+wc.fn, c.Rel(fd.Pos()), wc.kind+" comparison after a size test", strings.Join(uniq(why), "; "))
 	}
